@@ -6,6 +6,7 @@ MOD_HEAD = '''    use vstd::prelude::*;
     use std::collections::hash_map::Entry::{Occupied, Vacant};
     use std::borrow::Borrow;
     use std::hash::Hash;
+    use std::ffi::CString;
     use vstd::std_specs::iter::IteratorSpec;
     use vstd::std_specs::hash::*;
 '''
@@ -17,7 +18,7 @@ UNIT = {
     'name': 'varset',
     'property': 'C16',
     'rlimit': 100,
-    'crate_attrs': ['#![feature(allocator_api)]', '#![feature(sized_hierarchy)]', '#![feature(panic_internals)]'],
+    'crate_attrs': ['#![feature(allocator_api)]', '#![feature(sized_hierarchy)]', '#![feature(panic_internals)]', '#![feature(pattern)]'],
     'verus_args': ['--edition=2024'],
     'vacuity_floor': 19,
     # vacuity twin: every contracted fn with a precondition gets an unprovable proposition appended and must fail
@@ -132,10 +133,74 @@ UNIT = {
             # alternative annotation set for a body that has no `partition_point` step (the code before the fix of
             # finding F4 used the context index itself as the position): same contract, one closure fewer
             'alt': [{
-                'needs': ['. rposition ('],
+                # applies only to the shape in which the context index itself is used as the position
+                'needs': ['let index = Self :: index_of_context ('],
                 'closures': {0: {'ret': 'b: bool', 'ensures': ['b == (vic.variable.read_only_location is Some)']},
                              1: {'rewrite': 'option-map-to-match'}},
             }],
+        }),
+        (VAR, ['impl VariableSet', 'fn pop_context_impl'], {
+            'token_rewrites': [('self . all_variables . retain (', 'verif_retain(&mut self.all_variables, ')],
+            # documented: "the base context should not be popped" (panics otherwise)
+            'requires': [WF, 'old(self).ctxs().len() >= 2'],
+            'ensures': [
+                'final(self).wf()',
+                'final(self).ctxs() == old(self).ctxs().drop_last()',
+                # "locals ... vanish at return while globals assigned inside persist": every definition made in the popped
+                # context disappears, every definition in a lower context stays
+                'forall|n: String| #[trigger] final(self).stack(n) == popped(old(self).stack(n), old(self).ctxs().len() - 1)',
+            ],
+            'closures': {
+                0: {'ret': 'b: bool', 'ensures': ['final(stack)@ =~= popped(old(stack)@, self.contexts@.len() as int)', 'final(stack)@.len() > 0 ==> b']},  # a non-empty stack must be kept; dropping an empty one is only tidiness
+                1: {'ret': 'b: bool', 'ensures': ['b == (old(vic).context_index >= self.contexts@.len())', '*final(vic) == *old(vic)']},
+            }}),
+        (VAR, ['impl VariableSet', 'fn env_c_strings'], {'ret': 'r',
+            'token_rewrites': [
+                ('self . all_variables . iter ( ) . filter_map (', 'verif_filter_map_collect(&self.all_variables, '),
+                (') . collect ( )', ')'),
+                ('''let mut result = name.clone();
+                result.push('=');
+                match value {
+                    Scalar(value) => result.push_str(value),
+                    Array(values) => write!(result, "{}", values.iter().format(":")).ok()?,
+                }
+                CString::new(result).ok()''', 'verif_env_entry(name, value)'),
+            ],
+            'ensures': [
+                # "the environment handed to executed programs is exactly the exported variables with their current values"
+                # (this direction: nothing else gets in): every entry was built from the name and the current value of a
+                # VISIBLE variable that is exported
+                'forall|i: int| 0 <= i < r@.len() ==> env_entry_ok(self.all_variables@, #[trigger] r@[i])',
+            ],
+            'closures': {0: {'ret': 'e: Option<CString>', 'ensures': [
+                'e is Some ==> p0_t.1@.len() > 0 && p0_t.1@.last().variable.is_exported && cstr_name(e->0) == p0_t.0@ && p0_t.1@.last().variable.value == Some(cstr_value(e->0))']}},
+        }),
+        (VAR, ['struct Iter'], {'drop_derives': True, 'pub_fields': True}),
+        (VAR, ['impl VariableSet', 'fn iter'], {'ret': 'r', 'requires': ['self.wf()', FITS], 'ensures': [
+            'r.min_context_index as int == scope_index(scope, self.ctxs())',
+            'r.inner.obeys_prophetic_iter_laws() && r.inner.decrease() is Some',
+        ]}),
+        (VAR, ["impl<'a> Iterator for Iter<'a>", 'fn next'], {'ret': 'r', 'wrapper': "impl<'a> Iter<'a>",
+            'rewrites': ['let-chain-first'],
+            'requires': ['old(self).inner.obeys_prophetic_iter_laws()', 'old(self).inner.decrease() is Some'],
+            'ensures': [
+                # what is yielded is the VISIBLE variable of a name whose visible variable lies within the reach of the scope;
+                # every entry passed over is hidden from the scope ("the iterator ignores variables hidden by another")
+                'r is Some ==> ({ let k = old(self).inner.remaining().len() - final(self).inner.remaining().len() - 1; '
+                '0 <= k < old(self).inner.remaining().len() && r->Some_0.0@ == old(self).inner.remaining()[k].0@ && shown(*old(self).inner.remaining()[k].1, old(self).min_context_index) '
+                '&& *r->Some_0.1 == old(self).inner.remaining()[k].1@.last().variable && final(self).inner.remaining() =~= old(self).inner.remaining().skip(k + 1) '
+                '&& forall|j: int| 0 <= j < k ==> !shown(*(#[trigger] old(self).inner.remaining()[j]).1, old(self).min_context_index) })',
+                'r is None ==> forall|j: int| 0 <= j < old(self).inner.remaining().len() ==> !shown(*(#[trigger] old(self).inner.remaining()[j]).1, old(self).min_context_index)',
+                'final(self).min_context_index == old(self).min_context_index',
+            ],
+            'loops': {0: {
+                'invariant': ['self.inner.obeys_prophetic_iter_laws()', 'self.inner.decrease() is Some', 'self.min_context_index == old(self).min_context_index',
+                    'self.inner.remaining().len() <= old(self).inner.remaining().len()',
+                    'self.inner.remaining() =~= old(self).inner.remaining().skip(old(self).inner.remaining().len() - self.inner.remaining().len())',
+                    'forall|j: int| 0 <= j < old(self).inner.remaining().len() - self.inner.remaining().len() ==> !shown(*(#[trigger] old(self).inner.remaining()[j]).1, old(self).min_context_index)',
+                ],
+                'decreases': ['self.inner.decrease()->0'],
+            }},
         }),
         (VAR, ['impl VariableSet', 'fn push_context_impl'], {'requires': [WF], 'ensures': [
             'final(self).wf()',
